@@ -18,12 +18,13 @@ def main():
     for w in widths:
         for it in range(40):
             r = getattr(si, fn)(w=w, **kw)
-            if r.status in ("undecided", "partial"):
+            if r.status in ("undecided", "partial") and not (r.failures or r.spurious):
                 print(f"# w={w} {r.status}: {r.reason}", file=sys.stderr); break
-            if not r.failures:
+            fails = list(r.failures) + list(r.spurious)
+            if not fails:
                 print(f"# w={w} discharged after {it} rounds, paths={r.paths}, classes={len(classes)}", file=sys.stderr); break
             new = 0
-            for f in r.failures:
+            for f in fails:
                 cl = sorted(k[2:] for k, v in f.model.items() if k.startswith("F_") and v is True)
                 if "shift" not in ob:
                     cl = [c for c in cl if c != "b_gew"]
@@ -35,7 +36,7 @@ def main():
                     classes.append(cl); new += 1
                     wits.append({"w": w, "class": cl, "label": f.label, "detail": f.detail,
                                  **{k: v for k, v in f.model.items() if not k.startswith("F_")}})
-            print(f"# w={w} round {it}: {len(r.failures)} failures, {new} new classes", file=sys.stderr)
+            print(f"# w={w} round {it}: {len(fails)} failures, {new} new classes", file=sys.stderr)
             if new == 0:
                 print("# no progress", file=sys.stderr); break
     keep = [c for c in classes if not any(set(o) < set(c) for o in classes)]
